@@ -110,6 +110,7 @@ type Layer struct {
 type Case struct {
 	Layers []Layer `json:"layers"`
 	Gzip   bool    `json:"gzip,omitempty"`
+	Noise  uint8   `json:"noise,omitempty"` // bit set of unrelated calls made between the checked ones (roundj_test.go)
 }
 
 func parseI(s S) int64 {
@@ -454,13 +455,18 @@ func checkCase(c Case) error {
 	want := c.model()
 	layers := c.build(false)
 
+	runNoise(c, 0)
 	data, err := mvt.Marshal(layers)
 	if err != nil {
 		return fmt.Errorf("Marshal failed: %v", err)
 	}
+	snap := append([]byte(nil), data...)
 	// determinism: the same value again (the runtime picks a new map iteration
 	// order every time), and an equal value whose maps were filled in reverse.
 	for k := 0; k < 3; k++ {
+		if k == 1 {
+			runNoise(c, 1)
+		}
 		again, err := mvt.Marshal(layers)
 		if err != nil {
 			return fmt.Errorf("Marshal call %d failed: %v", k+2, err)
@@ -477,10 +483,12 @@ func checkCase(c Case) error {
 		return fmt.Errorf("Marshal of an equal value with maps filled in reverse order gave different bytes:\n% x\n% x", data, rev)
 	}
 
+	runNoise(c, 2)
 	out, err := mvt.Unmarshal(data)
 	if err != nil {
 		return fmt.Errorf("Unmarshal failed: %v (tile % x)", err, clip(data))
 	}
+	runNoise(c, 3)
 	got, err := fromOrb(out)
 	if err != nil {
 		return fmt.Errorf("Unmarshal: %v", err)
@@ -497,12 +505,21 @@ func checkCase(c Case) error {
 	if err := compareLayers(wire, want, "independent MVT reader"); err != nil {
 		return err
 	}
+	if !bytes.Equal(data, snap) {
+		return fmt.Errorf("the bytes returned by Marshal changed during later calls")
+	}
+	// results are independent values (class C)
+	if err := checkIndependence(want, data, snap, out, "Marshal", "Unmarshal",
+		func() ([]byte, error) { return mvt.Marshal(layers) }, mvt.Unmarshal); err != nil {
+		return err
+	}
 
 	if c.Gzip {
 		gz, err := mvt.MarshalGzipped(layers)
 		if err != nil {
 			return fmt.Errorf("MarshalGzipped failed: %v", err)
 		}
+		gzSnap := append([]byte(nil), gz...)
 		zr, err := gzip.NewReader(bytes.NewReader(gz))
 		if err != nil {
 			return fmt.Errorf("MarshalGzipped output is not gzip: %v", err)
@@ -511,9 +528,10 @@ func checkCase(c Case) error {
 		if err != nil {
 			return fmt.Errorf("MarshalGzipped output does not inflate: %v", err)
 		}
-		if !bytes.Equal(plain, data) {
+		if !bytes.Equal(plain, snap) {
 			return fmt.Errorf("MarshalGzipped inflates to different bytes than Marshal")
 		}
+		runNoise(c, 4)
 		out, err := mvt.UnmarshalGzipped(gz)
 		if err != nil {
 			return fmt.Errorf("UnmarshalGzipped failed: %v", err)
@@ -523,6 +541,10 @@ func checkCase(c Case) error {
 			return fmt.Errorf("UnmarshalGzipped: %v", err)
 		}
 		if err := compareLayers(got, want, "UnmarshalGzipped(MarshalGzipped(x))"); err != nil {
+			return err
+		}
+		if err := checkIndependence(want, gz, gzSnap, out, "MarshalGzipped", "UnmarshalGzipped",
+			func() ([]byte, error) { return mvt.MarshalGzipped(layers) }, mvt.UnmarshalGzipped); err != nil {
 			return err
 		}
 	}
@@ -974,6 +996,9 @@ func genCaseN(t *rapid.T, minL, maxL, minF, maxF int) Case {
 		c.Layers = append(c.Layers, l)
 	}
 	c.Gzip = rapid.IntRange(0, 15).Draw(t, "gzip") == 0
+	if rapid.IntRange(0, 2).Draw(t, "noisy") == 0 {
+		c.Noise = uint8(rapid.IntRange(1, 15).Draw(t, "noise"))
+	}
 	return c
 }
 
@@ -1119,7 +1144,7 @@ func assumptions() {
 
 func TestPropRoundTrip(t *testing.T) {
 	assumptions()
-	stats.Check(t, 40000, 1000000, func(rt *rapid.T) {
+	stats.Check(t, 20000, 500000, func(rt *rapid.T) {
 		c := genCase(rt)
 		classify(c)
 		stats.Try(rt, propTest, c, func() error { return checkCase(c) })
@@ -1198,6 +1223,18 @@ func TestReplay(t *testing.T) {
 	name, raw, ok := stats.Replaying()
 	if !ok {
 		t.Skip("no replay file")
+	}
+	if name == concTest {
+		var cs []Case
+		if err := json.Unmarshal(raw, &cs); err != nil {
+			t.Fatal(err)
+		}
+		for k := 0; k < 20; k++ {
+			if err := stats.ParallelErr(len(cs), 100, func(i int) error { return checkCase(cs[i]) }); err != nil {
+				t.Fatalf("replayed concurrent group still fails: %v", err)
+			}
+		}
+		return
 	}
 	if name == seqTest {
 		var sc SeqCase
